@@ -96,6 +96,7 @@ class Expander:
         self.src_cache = {}
         self.units_seen = []
         self.includes = []
+        self._uses = set()
 
     # ------------------------------------------------------------------
     def _src(self, rel):
@@ -163,6 +164,12 @@ class Expander:
                 raise TemplateError("%s:%d: unknown directive %r" % (path, i + 1, d))
 
     def _passthrough(self, line, unit, path, lineno, imported):
+        if re.match(r"^use\s+[\w:{}*, ]+;\s*$", line):
+            key = re.sub(r"\s+", " ", line.strip())
+            if key in self._uses:
+                line = "// (duplicate import elided) " + line
+            else:
+                self._uses.add(key)
         org = {"kind": "tmpl", "file": os.path.relpath(path, VERIF), "line": lineno, "unit": unit, "imported": imported}
         self.lines.append(Line(line, org))
         m = re.match(r"\s*(?:pub\s+)?(?:broadcast\s+)?proof\s+fn\s+(\w+)", line)
